@@ -146,6 +146,10 @@ def gen_case(rng: random.Random, tier):
         d = [[a, b] for a, b in opcfg['bytecode']['value_dict'].items()]
         code = {'src': {'k': 'enum', 'v': v, 'dict': d}, 'n': n, 'pos': 'suffix'}
         text = gen.lit(rng, v)
+        if v >= 0 and rng.random() < 0.4:
+            # the key is the value of the WHOLE operand expression, whatever operators it uses
+            text = rng.choice([f'{v}*1', f'1*{v}', f'{2 * v}/2', f'{v} | 0', f'({v} << 1) >> 1', f'{v + 16} & 15' if v < 16 else f'{v}*1',
+                               f'{v + 7} - 7', f'{v} ^ 0'])
     # other operands
     others = []
     for i in range(rng.choice([0, 0, 1, 2])):
